@@ -67,12 +67,51 @@ def directed():
              _c("L", "ILoad", {"ii": 0.5}, ["Bridge"]),
              _c("FET", "Rectifier", {"rs": 0.05, "ig": 1e-4, "iq": 2e-5}, ["S"]),
              _c("L2", "PLoad", {"pwr": 2.0}, ["FET"])]
-    return [{"spec": {"name": "bridges", "comps": comps, "phases": {}}, "vseed": 1}]
+    return [{"spec": {"name": "bridges", "comps": comps, "phases": {}}, "vseed": 1},
+            {"file": "tests/data/System v1.0.0.json"}, {"file": "tests/data/Future_system.json"},
+            {"file": "tests/unit/case1.json"}, {"file": "tests/unit/case13.json"}]
+
+
+def run_file(ctx, case):
+    """A JSON file shipped with the repository: load it, save it again, reload, compare every report."""
+    ns = loader.load()
+    path = os.path.join(loader.REPO, case["file"])
+    if not os.path.exists(path):
+        ctx.count("repo_files", "absent: " + case["file"])
+        return
+    st, a = H.call(ns.System.from_file, path)
+    ver = json.load(open(path))["system"]["version"]
+    from packaging import version as _v
+
+    newer = _v.parse(ver) > _v.parse(ns.sysloss.__version__)
+    if newer:
+        ctx.check("version.newer_refused", st == "raise" and isinstance(a, ValueError), {"file": case["file"], "file_version": ver})
+        return
+    ctx.check("version.older_accepted", st == "ok", {"file": case["file"], "file_version": ver, "outcome": "" if st == "ok" else H.exc_sig(a)})
+    if st != "ok":
+        return
+    from .. import hist
+
+    with H.tmpdir() as d:
+        f1 = os.path.join(d, "a.json")
+        a.save(f1)
+        st, b = H.call(ns.System.from_file, f1)
+        ctx.check("roundtrip.loads", st == "ok", {"file": case["file"], "exception": H.exc_sig(b) if st != "ok" else ""})
+        if st != "ok":
+            return
+        spec = hist.spec_from_live(a)
+        compare_reports(ctx, spec, a, b)
+        sdiff = structure_diff(spec, b)
+        ctx.check("roundtrip.structure", not sdiff, {"file": case["file"], "differences": sdiff[:8]})
+    ctx.count("repo_files", "round-tripped: " + case["file"])
+    ctx.sample({"repository_file": case["file"], "version": ver})
 
 
 def run(ctx, case):
     import random
 
+    if "file" in case:
+        return run_file(ctx, case)
     ns = loader.load()
     spec = case["spec"]
     rng = random.Random(case["vseed"])
